@@ -25,6 +25,8 @@ def judge_history(history, refs):
                 describe(history[:k]), name, ob["result"][:160], ref[:160]), k))
         if ob["args_before"] != ob["args_after"]:
             msgs.append(("the call %s modified its arguments: %s -> %s" % (name, ob["args_before"][:120], ob["args_after"][:120]), k))
+        if ob.get("earlier"):
+            msgs.append(("after [%s]: %s" % (describe(history[:k + 1]), ob["earlier"]), k))
     return msgs, st1
 
 
@@ -85,6 +87,9 @@ def check(ctx):
                 if ob["args_before"] != ob["args_after"]:
                     bad = True
                     violating.setdefault(("args", name), h)
+                if ob.get("earlier"):
+                    bad = True
+                    violating.setdefault(("earlier", name), h)
             if st not in seen:
                 seen[st] = h
                 if not bad:
